@@ -357,6 +357,11 @@ class ExtendedCopy(SCSICommand):
         for cscd_dict in cscd_descriptor_list:
             cscd_data.append(cls.marshall_cscd(cscd_dict))
         cscd_descriptor_list_length = sum([len(item) for item in cscd_data])
+        if cscd_descriptor_list_length > 0xFFFF:
+            # CSCD DESCRIPTOR LIST LENGTH is a 16 bit field
+            raise ValueError(
+                "cscd descriptor list too long: %d bytes" % cscd_descriptor_list_length
+            )
 
         segment_data = []
         for segment_dict in segment_descriptor_list:
@@ -366,6 +371,12 @@ class ExtendedCopy(SCSICommand):
             else:
                 raise ValueError("Failed to generate segment for %s" % segment_dict)
         segment_descriptor_list_length = sum([len(item) for item in segment_data])
+        if segment_descriptor_list_length > 0xFFFF:
+            # SEGMENT DESCRIPTOR LIST LENGTH is a 16 bit field
+            raise ValueError(
+                "segment descriptor list too long: %d bytes"
+                % segment_descriptor_list_length
+            )
 
         inline_data_length = len(inline_data)
 
